@@ -296,6 +296,8 @@ func runC05(c *kit.Ctx) {
 	// ---- R5 ---------------------------------------------------------------
 	c.StartRule("R5", "every option written into a request struct reaches the wire", 30)
 	scanRequestLevelOptions(c)
+	serialisingDoesNotChangeTheCall(c)
+	accumulatorIsHandedBack(c)
 	cellblockFormMatchesProtoForm(c)
 	clientSide := map[string]string{
 		"base.ctx":                 "cancellation only",
@@ -399,6 +401,7 @@ func runC05(c *kit.Ctx) {
 	// ---- R6 ---------------------------------------------------------------
 	c.StartRule("R6", "one writer at a time on the connection", 2)
 	sendPathSharesNoMemory(c)
+	everyWriteErrorIsReported(c)
 	c.Table("C05.R6: sendHello's write is exempt (runs inside dialOnce before the connection goroutines exist; re-checked by R7)")
 	{
 		le := kit.NewLockEnv(p)
@@ -511,6 +514,13 @@ func runC05(c *kit.Ctx) {
 			}
 		})
 		c.Check(adv, hello, "hello-advertises-codec", hello.Pos(), "the hello names the compressor class iff c.compressor != nil", "the hello does not advertise the compression codec under the same condition under which cellblocks are compressed")
+	}
+
+	// ---- R9, R10 ------------------------------------------------------------
+	if !c.Frozen {
+		embed(c, "R9", "the scan requests that go out carry the bounds, direction and scanner state the scan is in (the rules of C06, run as one rule here)", 20, runC06)
+		embed(c, "R10", "the cells that go out are the ones the mutation denotes, in both encodings (the rules of C10, run as one rule here)", 30, runC10)
+		embed(c, "R11", "every request, also every action of a multi-request whatever the grouping, names the region of the call it was built from (the rules of C01, run as one rule here)", 30, runC01)
 	}
 }
 
